@@ -233,6 +233,8 @@ Definition holds_joe_c17 (i o : val) : bool :=
      replayer is never called again *)
   && forallb (fun e => if Nat.eqb (code e) 40 && Nat.eqb (a2 e) 98
                        then (negb complete || has_ev 27 (a1 e) evs)
+                            (* ... and that Publish returns nil, as it would without a replayer *)
+                            && forallb (fun x => if is_ev 15 (a1 e) x then Nat.eqb (a2 x) 0 else true) evs
                        else if Nat.eqb (code e) 32 && Nat.eqb (a2 e) 98
                        then (negb complete || has_ev 34 (a1 e) evs)
                        else true) evs
